@@ -1,2 +1,3 @@
 import PysamlModel.Props.PyTieC04
 #print axioms PyTie.for_me_refines
+#print axioms PyTie.verify_refines
